@@ -19,8 +19,9 @@
 (*                       marker), or -1 if w is a sentence.                *)
 (* Continuations(G, u) : the terminals (and "$") that keep u viable.       *)
 (* ValidTree(G, t, w)  : t is a derivation tree of w from G.start.         *)
-(* Ambiguous(G, N)     : some string of length <= N has two derivation     *)
-(*                       trees from the start symbol.                      *)
+(* TreeCount(G, w)     : number of derivation trees of w (0, 1, "2 or more")*)
+(* Ambiguous(G, T, N)  : some string over T of length <= N has two         *)
+(*                       derivation trees from the start symbol.           *)
 (***************************************************************************)
 EXTENDS Naturals, Integers, Sequences, FiniteSets
 
@@ -93,14 +94,15 @@ ItemLhs(PG, it)  == Lhs(PG.prods[it[1]])
 Advance(it)      == <<it[1], it[2] + 1, it[3]>>
 
 (* Closure of an item set at position k under predict and complete, as a   *)
-(* work-list fixed point.  prev = <<S_0, ..., S_{k-1}>>; I = all items so  *)
-(* far; F \subseteq I = items not yet processed; O = the items of I with   *)
-(* the dot not at the end; PX = nonterminals already predicted here; ND =  *)
-(* nonterminals already completed with origin k (they derive the empty     *)
-(* string here), so an item that starts waiting for one of them later is   *)
-(* advanced at once.                                                       *)
+(* work-list fixed point.  opens = <<O_0, ..., O_{k-1}>> where O_j is the   *)
+(* part of S_j with the dot not at the end (all a later completion needs); *)
+(* I = all items so far; F \subseteq I = items not yet processed; O = the   *)
+(* items of I with the dot not at the end; PX = nonterminals already       *)
+(* predicted here; ND = nonterminals already completed with origin k (they *)
+(* derive the empty string here), so an item that starts waiting for one   *)
+(* of them later is advanced at once.                                      *)
 RECURSIVE EarleyWork(_, _, _, _, _, _, _, _)
-EarleyWork(PG, prev, k, I, F, O, PX, ND) ==
+EarleyWork(PG, opens, k, I, F, O, PX, ND) ==
     IF F = {} THEN I
     ELSE
     LET openF == {it \in F : ~ItemDone(PG, it)}
@@ -108,30 +110,33 @@ EarleyWork(PG, prev, k, I, F, O, PX, ND) ==
         want  == ({ItemNext(PG, it) : it \in openF} \cap PG.nts) \ PX
         pred  == UNION {{<<q, 0, k>> : q \in PG.pc[X]} : X \in want}
         O2    == O \cup openF
-        ND2   == ND \cup {ItemLhs(PG, it) : it \in {it \in doneF : it[3] = k}}
-        comp  == UNION {LET A   == ItemLhs(PG, it)
-                            src == IF it[3] = k THEN O2
-                                   ELSE {j \in prev[it[3] + 1] : ~ItemDone(PG, j)}
-                        IN  {Advance(j) : j \in {j \in src : ItemNext(PG, j) = A}}
-                        : it \in doneF}
+        keys  == {<<it[3], ItemLhs(PG, it)>> : it \in doneF}       \* (origin, completed nonterminal)
+        ND2   == ND \cup {ky[2] : ky \in {ky \in keys : ky[1] = k}}
+        comp  == UNION {LET src == IF ky[1] = k THEN O2 ELSE opens[ky[1] + 1]
+                        IN  {Advance(j) : j \in {j \in src : ItemNext(PG, j) = ky[2]}}
+                        : ky \in keys}
         late  == {Advance(j) : j \in {j \in openF : ItemNext(PG, j) \in ND2}}
         new   == (pred \cup comp \cup late) \ I
-    IN  EarleyWork(PG, prev, k, I \cup new, new, O2, PX \cup want, ND2)
+    IN  EarleyWork(PG, opens, k, I \cup new, new, O2, PX \cup want, ND2)
 
-EarleyClose(PG, prev, k, seed) == EarleyWork(PG, prev, k, seed, seed, {}, {}, {})
+EarleyClose(PG, opens, k, seed) == EarleyWork(PG, opens, k, seed, seed, {}, {}, {})
 
-Scan(PG, S, x) == {Advance(it) : it \in {it \in S : ~ItemDone(PG, it) /\ ItemNext(PG, it) = x}}
+OpenPart(PG, S) == {it \in S : ~ItemDone(PG, it)}
 
-RECURSIVE EarleyFrom(_, _, _)
-EarleyFrom(PG, w, prev) ==
-    LET k == Len(prev)
-    IN  IF k > Len(w) THEN prev
-        ELSE LET seed == Scan(PG, prev[k], w[k])
-             IN  EarleyFrom(PG, w, Append(prev, IF seed = {} THEN {} ELSE EarleyClose(PG, prev, k, seed)))
+Scan(PG, O, x) == {Advance(it) : it \in {it \in O : ItemNext(PG, it) = x}}
+
+RECURSIVE EarleyFrom(_, _, _, _)
+EarleyFrom(PG, w, sets, opens) ==
+    LET k == Len(sets)
+    IN  IF k > Len(w) THEN sets
+        ELSE LET seed == Scan(PG, opens[k], w[k])
+                 S    == IF seed = {} THEN {} ELSE EarleyClose(PG, opens, k, seed)
+             IN  EarleyFrom(PG, w, Append(sets, S), Append(opens, OpenPart(PG, S)))
 
 \* <<S_0, ..., S_n>> for w of length n   (element k+1 is S_k)
 EarleySets(PG, w) ==
-    EarleyFrom(PG, w, <<EarleyClose(PG, <<>>, 0, {<<q, 0, 0>> : q \in PG.by[PG.start]})>>)
+    LET S0 == EarleyClose(PG, <<>>, 0, {<<q, 0, 0>> : q \in PG.by[PG.start]})
+    IN  EarleyFrom(PG, w, <<S0>>, <<OpenPart(PG, S0)>>)
 
 Complete(PG, S) == \E it \in S : it[3] = 0 /\ ItemDone(PG, it) /\ ItemLhs(PG, it) = PG.start
 
@@ -173,10 +178,10 @@ Frontier(t) ==
 
 RECURSIVE NodesAreProductions(_, _)
 NodesAreProductions(PS, t) ==
-    \/ IsLeaf(t)
-    \/ /\ t.p \in PS
-       /\ Len(t.c) = Len(Rhs(t.p))
-       /\ \A j \in 1..Len(t.c) : RootSym(t.c[j]) = Rhs(t.p)[j] /\ NodesAreProductions(PS, t.c[j])
+    IF IsLeaf(t) THEN TRUE
+    ELSE /\ t.p \in PS
+         /\ Len(t.c) = Len(Rhs(t.p))
+         /\ \A j \in 1..Len(t.c) : RootSym(t.c[j]) = Rhs(t.p)[j] /\ NodesAreProductions(PS, t.c[j])
 
 ValidTree(G, t, w) ==
     /\ ~IsLeaf(t)
@@ -186,46 +191,51 @@ ValidTree(G, t, w) ==
     /\ \A j \in 1..Len(w) : w[j] \notin NonterminalsOf(G)
 
 -----------------------------------------------------------------------------
-(* Bounded ambiguity: number of derivation trees, saturating at 2, of      *)
-(* every string of length <= N from every nonterminal, as the least fixed  *)
-(* point of the production equations (cyclic derivations A =>+ A saturate  *)
-(* to 2, as they should: they give infinitely many trees).                 *)
+(* Ambiguity.  TreeCount(G, w) is the number of derivation trees of w from *)
+(* G.start, saturating at 2, computed as the least fixed point of the      *)
+(* production equations over the spans of w: cnt[X][a][b] = number of      *)
+(* trees with root X and frontier w[a+1..b].  Cyclic derivations A =>+ A   *)
+(* saturate to 2, as they should (they give infinitely many trees).        *)
+(* Ambiguous(G, T, N): some string over T of length <= N has two trees.    *)
 
 Sat(n) == IF n > 2 THEN 2 ELSE n
 
 StringsUpTo(T, N) == UNION {[1..n -> T] : n \in 0..N}
 
-\* ways for the symbols rhs[j..] to derive u, given tree counts cnt[X][v]
-RECURSIVE Ways(_, _, _, _, _)
-Ways(NT, cnt, rhs, j, u) ==
-    IF j > Len(rhs) THEN (IF u = <<>> THEN 1 ELSE 0)
+\* ways for the symbols rhs[j..] to derive w[a+1..b], given tree counts cnt
+RECURSIVE SpanWays(_, _, _, _, _, _, _)
+SpanWays(NT, cnt, rhs, j, w, a, b) ==
+    IF j > Len(rhs) THEN (IF a = b THEN 1 ELSE 0)
     ELSE LET X == rhs[j]
          IN  IF X \notin NT
-             THEN (IF Len(u) >= 1 /\ u[1] = X THEN Ways(NT, cnt, rhs, j + 1, Tail(u)) ELSE 0)
+             THEN (IF a < b /\ w[a + 1] = X THEN SpanWays(NT, cnt, rhs, j + 1, w, a + 1, b) ELSE 0)
              ELSE LET RECURSIVE sum(_)
-                      sum(l) == IF l > Len(u) THEN 0
-                                ELSE LET c == cnt[X][SubSeq(u, 1, l)]
-                                     IN  Sat((IF c = 0 THEN 0
-                                              ELSE c * Ways(NT, cnt, rhs, j + 1, SubSeq(u, l + 1, Len(u))))
-                                             + sum(l + 1))
-                  IN  sum(0)
+                      sum(m) == IF m > b THEN 0
+                                ELSE LET c == cnt[X][a][m]
+                                     IN  Sat((IF c = 0 THEN 0 ELSE c * SpanWays(NT, cnt, rhs, j + 1, w, m, b))
+                                             + sum(m + 1))
+                  IN  sum(a)
 
 RECURSIVE TreeCountFix(_, _, _, _)
-TreeCountFix(G, NT, Strs, cnt) ==
-    LET nxt == [X \in NT |-> [u \in Strs |->
-                   LET RECURSIVE tot(_)
-                       tot(i) == IF i > Len(G.prods) THEN 0
-                                 ELSE Sat((IF Lhs(G.prods[i]) = X
-                                           THEN Ways(NT, cnt, Rhs(G.prods[i]), 1, u) ELSE 0) + tot(i + 1))
-                   IN  tot(1)]]
-    IN  IF nxt = cnt THEN cnt ELSE TreeCountFix(G, NT, Strs, nxt)
+TreeCountFix(G, NT, w, cnt) ==
+    LET n   == Len(w)
+        nxt == [X \in NT |-> [a \in 0..n |-> [b \in 0..n |->
+                   IF a > b THEN 0
+                   ELSE LET RECURSIVE tot(_)
+                            tot(i) == IF i > Len(G.prods) THEN 0
+                                      ELSE Sat((IF Lhs(G.prods[i]) = X
+                                                THEN SpanWays(NT, cnt, Rhs(G.prods[i]), 1, w, a, b) ELSE 0)
+                                               + tot(i + 1))
+                        IN  tot(1)]]]
+    IN  IF nxt = cnt THEN cnt ELSE TreeCountFix(G, NT, w, nxt)
 
-TreeCounts(G, N) ==
-    LET NT   == NonterminalsOf(G)
-        Strs == StringsUpTo(TerminalsOf(G), N)
-    IN  TreeCountFix(G, NT, Strs, [X \in NT |-> [u \in Strs |-> 0]])
+TreeCount(G, w) ==
+    LET NT == NonterminalsOf(G)
+        n  == Len(w)
+    IN  IF G.start \notin NT THEN 0
+        ELSE TreeCountFix(G, NT, w, [X \in NT |-> [a \in 0..n |-> [b \in 0..n |-> 0]]])[G.start][0][n]
 
-Ambiguous(G, N) ==
-    /\ G.start \in NonterminalsOf(G)
-    /\ LET c == TreeCounts(G, N)[G.start] IN \E u \in DOMAIN c : c[u] >= 2
+AmbiguousSentence(G, w) == TreeCount(G, w) >= 2
+
+Ambiguous(G, T, N) == \E u \in StringsUpTo(T, N) : AmbiguousSentence(G, u)
 =============================================================================
